@@ -159,7 +159,9 @@ def check(o: dict, model: Model, res: Result, label: str) -> None:
         j = jobs[jid]
         if j.get("defer_until") is not None and dl:
             first = dl[0]
-            if first["t"] < j["defer_until"]:
+            # RabbitMQ expresses delays in whole milliseconds (C05: "at millisecond resolution")
+            tol = 1000 if sc.get("broker") == "rabbit" else 0
+            if first["t"] < j["defer_until"] - tol:
                 res.bad("impl", "first run before deferred_until", case={"label": label, "job": {k: v for k, v in j.items() if k != "plan"}},
                         observed=first["t"], expected=">= %d" % j["defer_until"])
 
